@@ -20,7 +20,10 @@ RULE = ("a scenario is one complete run of run_split: an abstract input (read se
         "quick: every 7th); Gen_C14 'lattice' = TLC-decoded points of the space <=6 reads over 5 names x lengths 0..2, <=5 list "
         "lines in 3 blocks on 2 chromosomes, ploidy 2-4, every option; seeded random scenarios beyond those bounds (<=12 reads, "
         "<=8 names, lengths up to 30, <=8 lines, BAM records without sequence but with CIGAR, PacBio-style names, list without "
-        "final newline); the counterexamples TLC finds for the implementation-shaped design alternatives.  Non-trivial = at "
+        "final newline).  Read names: read<n>, PacBio-style, or - half of the random scenarios and every third lattice point - "
+        "names over the full legal QNAME alphabet [!-?A-~] in the reads (BAM and FASTQ) and in the list: the digits of n "
+        "between pseudo-random runs of symbols and letters, so that names start with, contain and end with every legal "
+        "character, half of the time a quote, backquote, hash, comma, semicolon, backslash or bar; the counterexamples TLC finds for the implementation-shaped design alternatives.  Non-trivial = at "
         "least 2 input reads whose targets differ (e.g. one goes to H1 and another is untagged or discarded)")
 ASSUMPTIONS = [
     "the haplotype list is a function of the read name: a name may be listed on several lines (one per alignment) with the same entry; contradictory lines are outside the statement",
@@ -28,6 +31,9 @@ ASSUMPTIONS = [
     "whether or not the reads occur in the input; ties are resolved by an arbitrary largest block (TLC searches for a witness selection)",
     "content identity of a record = the FASTQ record text (4 lines) resp. pysam's SAM rendering of the BAM record; BAM headers are not compared",
     "at least one haplotype output is requested and, with --discard-unknown-reads, the list is not empty (the CLI refuses the other cases)",
+    "a list line is <read name> TAB <haplotype> [TAB <phase set> TAB <chromosome>] and nothing else: no quoting, escaping or comment "
+    "syntax, read names are any strings over the QNAME alphabet [!-?A-~]; the only exception is the optional header, which is a FIRST "
+    "line that starts with a hash - so a list whose first entry is a read name starting with a hash is always written with a header",
     "the read length of a BAM record without sequence is the query length of its CIGAR, or 0 without CIGAR (as documented in _bam_iterator)",
 ]
 FMTS = ["fastq", "fastq.gz", "bam"]
@@ -146,11 +152,14 @@ def _rand(rng):
         req = [rng.random() < 0.6] + [True] * p
     else:
         req = [rng.random() < 0.6] + rng.choice([[True, True], [True, True], [True, False], [False, True]])
-    return {"src": "random", "reads": reads, "list": lines,
-            "opt": {"ploidy": p, "req": req, "addU": rng.random() < 0.35, "disc": disc, "largest": largest},
-            "mat": {"fmt": fmt, "cols": 4 if largest or rng.random() < 0.6 else 2, "header": (not lines) or rng.random() < 0.5,
-                    "listgz": rng.random() < 0.2, "dasho": dasho, "histo": rng.random() < 0.85,
-                    "namestyle": rng.randint(0, 1), "final_nl": rng.random() < 0.8}}
+    sc = {"src": "random", "reads": reads, "list": lines,
+          "opt": {"ploidy": p, "req": req, "addU": rng.random() < 0.35, "disc": disc, "largest": largest},
+          "mat": {"fmt": fmt, "cols": 4 if largest or rng.random() < 0.6 else 2, "header": (not lines) or rng.random() < 0.5,
+                  "listgz": rng.random() < 0.2, "dasho": dasho, "histo": rng.random() < 0.85,
+                  "namestyle": rng.randint(0, 1), "final_nl": rng.random() < 0.8}}
+    if rng.random() < 0.5:
+        _alphabet_style(sc, rng)       # read names over the full QNAME alphabet
+    return sc
 
 
 def scenarios(ctx):
@@ -166,6 +175,9 @@ def scenarios(ctx):
     with open(gen) as fh:
         gens = [json.loads(x) for x in fh if x.strip()]
     scs = [_from_gen(g) for g in gens]
+    for i, s in enumerate(scs):
+        if s["src"] == "lattice" and i % 3 == 0:
+            _alphabet_style(s, ctx.rng)    # every third lattice point with read names over the full QNAME alphabet
     ctx.notes["tlc_generated"] = {"tiny_product": sum(1 for s in scs if s["src"] == "tiny"),
                                   "tiny_product_stride": 7 if q else 1,
                                   "lattice_points": sum(1 for s in scs if s["src"] == "lattice")}
@@ -182,7 +194,8 @@ def scenarios(ctx):
     scs += [_rand(ctx.rng) for _ in range(n)]
     ctx.notes["seeded_random"] = n
     feats = {"duplicate_read_names": 0, "zero_length_read": 0, "only_largest_block": 0, "largest_block_tie": 0,
-             "discard_unknown": 0, "add_untagged": 0, "list_name_absent_from_reads": 0, "none_entry": 0}
+             "discard_unknown": 0, "add_untagged": 0, "list_name_absent_from_reads": 0, "none_entry": 0,
+             "names_over_full_qname_alphabet": 0, "tagged_name_starts_with_quote_or_comment_char": 0}
     for s in scs:
         names = [r[0] for r in s["reads"]]
         feats["duplicate_read_names"] += len(set(names)) < len(names)
@@ -193,6 +206,10 @@ def scenarios(ctx):
         feats["add_untagged"] += s["opt"]["addU"]
         feats["list_name_absent_from_reads"] += any(l[0] not in names for l in s["list"])
         feats["none_entry"] += any(l[1] == 0 for l in s["list"])
+        st = s["mat"]["namestyle"]
+        feats["names_over_full_qname_alphabet"] += st >= 2
+        feats["tagged_name_starts_with_quote_or_comment_char"] += st >= 2 and any(
+            l[1] > 0 and l[0] in names and _name(l[0], st)[0] in "\"'`#" for l in s["list"])
     ctx.notes["scenario_features"] = {k: int(v) for k, v in feats.items()}
     return scs
 
@@ -253,8 +270,45 @@ def _expected_names(sc, sel, stop_after_written=None):
 
 # ----------------------------------------------------------------------------------------------
 # materialisation and observation
+# the legal alphabet of a SAM QNAME, [!-?A-~] (printable ASCII without blank and '@'); FASTQ names use the same one here
+QNAME_ALPHABET = "".join(chr(c) for c in range(33, 127) if c != 64)
+_SYMBOLS = "".join(c for c in QNAME_ALPHABET if not c.isalnum())
+_LETTERS = "".join(c for c in QNAME_ALPHABET if c.isalpha())
+# characters that mean something to table / CSV / shell / comment parsers: quotes, comment and separator characters, escapes
+_META = "\"'`#,;\\|"
+
+
 def _name(n, style):
-    return f"read{n}" if style == 0 else f"m64011_190830_220126/{n * 131}/ccs"
+    """Injective in n for every style.  style 0: read<n>; 1: PacBio-style; >= 2: a name over the full QNAME alphabet -
+    the decimal digits of n (the only digits of the name) surrounded by pseudo-random runs (seeded by style and n) of
+    symbols and letters, so that names start with, contain and end with every legal character, half of the time one
+    of the quote / comment / separator / escape characters."""
+    if style == 0:
+        return f"read{n}"
+    if style == 1:
+        return f"m64011_190830_220126/{n * 131}/ccs"
+    import random
+    r = random.Random(style * 1009 + n)
+
+    def run(k, letters):
+        out = ""
+        for _ in range(k):
+            x = r.random()
+            out += r.choice(_META) if x < 0.5 else r.choice(_LETTERS if letters and x < 0.7 else _SYMBOLS)
+        return out
+    pre = run(r.choice([0, 1, 1, 1, 2, 3]), r.random() < 0.3)
+    suf = run(r.choice([0, 0, 1, 1, 2, 3]), True)
+    return pre + str(n) + suf
+
+
+def _alphabet_style(sc, rng):
+    """Gives the scenario names over the full QNAME alphabet.  A first line that starts with '#' IS a header by the
+    definition of the list format, so a list whose first entry has such a name gets a header line (see ASSUMPTIONS)."""
+    m = sc["mat"]
+    m["namestyle"] = rng.randint(2, 10 ** 6)
+    if sc["list"] and _name(sc["list"][0][0], m["namestyle"]).startswith("#"):
+        m["header"] = True
+    return sc
 
 
 def _seq(i, ln):
@@ -489,7 +543,7 @@ MANIFEST = {
             "read at a time, writer[haplotype], per-class length Counter, histogram rows) with today's early exit and row rule as selectable "
             "design alternatives; TLC proves the reference design correct on all tiny inputs, proves the early exit harmless for unique read "
             "names and exhibits counterexamples for the alternatives whatshap implements.  TLC generates the scenarios (complete tiny product + "
-            "decoded lattice of the large space); each is written as FASTQ/FASTQ.gz/unaligned BAM + list file, run through the real "
+            "decoded lattice of the large space, read names also over the full QNAME alphabet); each is written as FASTQ/FASTQ.gz/unaligned BAM + list file, run through the real "
             "run_split in-process, every output and the histogram are read back and TLC judges each recorded run against Split.tla.",
     "note": "trusted: TLC, Split.tla, the materialiser/reader in wv/props/c14.py (asserts names, lengths and unique record contents of what it "
             "wrote); bounds: design MC <=3 reads over 2-3 names; scenarios <=12 reads, <=8 list lines, ploidy 2-4",
